@@ -1,6 +1,6 @@
 """C17 - closing or dropping a socket stops its listeners and disconnects all peers."""
 import json, random
-import vlib, netlib
+import vlib, netlib, dlvlib, scripts as S
 
 PREFIXES = ["bound-only", "accepted", "connected-out", "mid-traffic", "pending-handshake"]
 
@@ -25,6 +25,56 @@ def cell(stype, transport, prefix, how, scen):
     ops += [{"op": "tasks"}, {"op": "fds"}]
     return {"scen": scen, "sock": stype, "ops": ops, "tag": "%s/%s/%s" % (transport, prefix, how)}
 
+DROP_STATES = ["no-peers", "idle-peers", "unread-input", "half-message", "recv-abandoned", "send-abandoned", "peer-eof-unobserved", "mid-traffic",
+               "late-registration", "late-registration-with-peers", "late-registration-peer-gone"]
+
+def drop_script(t, state, how, scen):
+    """in-memory: the socket is dropped / closed in `state`; afterwards every connection ever handed to it must be released"""
+    ptype = S.PEER_OF[t][0]
+    recvs = t in S.RECV_TYPES
+    def att(c): return {"op": "attach", "c": c, "ptype": ptype}
+    def sub(c): return [{"op": "psend", "c": c, "m": [S.hx(b"\x01")]}] if t in ("PUB", "XPUB") else []
+    def out(i):
+        if t == "ROUTER": return [{"op": "send_to", "c": 1, "m": [S.hx("o%d" % i)]}]
+        if t in ("DEALER", "PUSH", "PUB", "XPUB", "REQ"): return [{"op": "send", "m": [S.hx("o%d" % i)]}]
+        return []
+    ops, after = [], []
+    if state == "idle-peers":
+        ops += [att(1), att(2)] + sub(1) + [{"op": "settle"}]
+    elif state == "unread-input":
+        ops += [att(1), att(2)]
+        for c in (1, 2):
+            for n in (1, 2):
+                ops.append({"op": "psend", "c": c, "m": dlvlib.msg_for(t, c, n) if recvs else [S.hx(b"\x01x")]})
+        ops.append({"op": "settle"})
+    elif state == "half-message":
+        ops += [att(1), att(2), {"op": "pbegin", "c": 1, "m": dlvlib.msg_for(t, 1, 2) if recvs else [S.hx(b"\x01" + b"y" * 300)], "upto": 500}, {"op": "settle"}]
+    elif state == "recv-abandoned":
+        ops += [att(1), att(2)] + ([{"op": "recv_poll"}, {"op": "recv_drop"}] if recvs else [])
+    elif state == "send-abandoned":
+        ops += [att(1), att(2)] + sub(1) + sub(2) + [{"op": "settle"}, {"op": "credit", "c": 1, "n": 0}, {"op": "credit", "c": 2, "n": 0}]
+        for o in out(1):
+            ops += [dict(o, op=o["op"]), {"op": "call_drop"}]
+    elif state == "peer-eof-unobserved":
+        ops += [att(1), att(2), {"op": "pclose", "c": 1}]
+    elif state == "mid-traffic":
+        ops += [att(1), att(2)] + sub(1) + sub(2) + [{"op": "settle"}]
+        if recvs and t != "REQ":
+            ops += [{"op": "psend", "c": 1, "m": dlvlib.msg_for(t, 1, 1)}, {"op": "recv"}, {"op": "recv_drop"}, {"op": "psend", "c": 2, "m": dlvlib.msg_for(t, 2, 2)}]
+        if t == "REP":
+            ops += [{"op": "send", "m": [S.hx("reply")]}]
+        ops += out(1) + ([{"op": "call_drop"}] if out(1) else [])
+    elif state.startswith("late-registration"):
+        if state != "late-registration":
+            ops += [att(1)] + sub(1) + [{"op": "settle"}]
+        # the handshake of connection 2 has exchanged READY in both directions, but has not yet registered the peer
+        ops += [{"op": "gate_hold", "name": "handshake.before_register"}, att(2)]
+        if state == "late-registration-peer-gone":
+            after.append({"op": "pclose", "c": 2})
+        after += [{"op": "gate_release"}, {"op": "settle"}]
+    ops.append({"op": "drop_socket", "how": how, "state": state})
+    return {"scen": scen, "sock": t, "ops": ops + after, "tag": "%s/%s" % (state, how)}
+
 def run(chk, replay=None):
     chk.rule = ("cases = cells of the grid {9 socket types} x {TCP v4, TCP v6, IPC} x {bound only, bound + accepted peer, connected out, mid-traffic with two peers, pending "
                 "handshake} x {close(), drop} on the real runtime with real sockets (quick: every type x transport once with prefix and close/drop cycling, plus every prefix x close/drop "
@@ -35,12 +85,26 @@ def run(chk, replay=None):
     thorough = chk.tier == "thorough"
     if replay:
         sc = json.load(open(replay))["replay"]["script"]
+        if json.load(open(replay))["replay"].get("kind") == "engine":
+            v = dlvlib.run_scripts(chk, [sc], "replay", monitor="TraceDrop")
+            dlvlib.report(chk, v, [sc], ("C17/",), "replay", monitor="TraceDrop")
+            return
         v = netlib.run_net(chk, [sc], "replay", procs=1)
         netlib.report(chk, v, [sc], ("C17/",), "replay")
         return
     for cfg, must in (("MC_Listener_ok", True), ("MC_Listener_close_keeps_peers", False), ("MC_Listener_pending_handshake_outlives_socket", False)):
         r = vlib.tlc("Listener", cfg + ".cfg", chk.wd, timeout=600, coverage=must)
         (chk.model_must_hold if must else chk.model_must_fail)(r, "Listener " + cfg + (": after Close nothing listens, no peer, no task, no pending handshake" if must else " (deviation: counterexample exists)"))
+    # in-memory half: drop / close in every state of the history, deterministic (late registration is a gate, not a race)
+    dfam, scen = [], 500000
+    for t in netlib.TYPES:
+        for st in DROP_STATES:
+            for how in ("drop", "close"):
+                scen += 1; dfam.append(drop_script(t, st, how, scen))
+    for s in dfam: chk.case((s["sock"], "in-memory", s["tag"]))
+    chk.sample({"kind": "in-memory drop cell", "sock": dfam[-3]["sock"], "cell": dfam[-3]["tag"], "ops": [o["op"] for o in dfam[-3]["ops"]]})
+    v = dlvlib.run_scripts(chk, dfam, "c17-drop", monitor="TraceDrop")
+    dlvlib.report(chk, v, dfam, ("C17/",), "in-memory-drop", monitor="TraceDrop")
     fam, scen = [], 0
     transports = ["tcp4", "tcp6", "ipc"]
     if thorough:
